@@ -10,6 +10,8 @@ program per public mutator of the library mirroring where the Rust code takes sn
   seq p q       p then q (q only if p succeeded)
   scope b       snapshot; run b; on failure restore the snapshot and fail
   attempt b     like scope, but a failure of b is swallowed (retry loops: restore and go on)
+  orElse p q    snapshot; run p; if it succeeds that is the result, otherwise restore and run q
+                (fallback chains: `repair … or else robust repair … or else heuristic rebuild`)
 Failpoint names are the ones compiled into /repo by hook H1.
 -/
 namespace DM.Txn
@@ -21,6 +23,7 @@ inductive Prog where
   | seq (p q : Prog)
   | scope (body : Prog)
   | attempt (body : Prog)
+  | orElse (p q : Prog)
   deriving Repr, DecidableEq
 
 /-- abstract state: the log of mutations applied so far (restoring = truncating the log) -/
@@ -43,6 +46,9 @@ def run (σ : Schedule) : Prog → St → St × Bool
   | .attempt b, s =>
     let (s1, ok) := run σ b s
     if ok then (s1, true) else (s, true)
+  | .orElse p q, s =>
+    let (s1, ok) := run σ p s
+    if ok then (s1, true) else run σ q s
 
 def mutates : Prog → Bool
   | .skip => false
@@ -51,6 +57,7 @@ def mutates : Prog → Bool
   | .seq p q => mutates p || mutates q
   | .scope b => mutates b
   | .attempt b => mutates b
+  | .orElse p q => mutates p || mutates q
 
 def canFail : Prog → Bool
   | .skip => false
@@ -59,6 +66,7 @@ def canFail : Prog → Bool
   | .seq p q => canFail p || canFail q
   | .scope b => canFail b
   | .attempt _ => false
+  | .orElse _ q => canFail q
 
 /-- syntactic criterion: whenever the program fails, the state is unchanged -/
 def clean : Prog → Bool
@@ -68,6 +76,7 @@ def clean : Prog → Bool
   | .seq p q => clean p && ((!mutates p && clean q) || !canFail q)
   | .scope _ => true
   | .attempt _ => true
+  | .orElse _ q => clean q
 
 /-- failpoints at which a failure leaves a changed state (for programs that are not `clean`):
 `dirtyAt p` lists the names of failpoints reachable after an uncommitted mutation -/
@@ -78,6 +87,7 @@ def dirtyAt : Prog → Bool → List String
   | .seq p q, dirty => dirtyAt p dirty ++ dirtyAt q (dirty || mutates p)
   | .scope _, _ => []
   | .attempt _, _ => []
+  | .orElse _ q, dirty => dirtyAt q dirty
 
 infixr:60 " ;; " => Prog.seq
 
@@ -128,5 +138,15 @@ def editFlip : Prog := flipBody
 
 /-- public repair entry points -/
 def repairPublic : Prog := repairGuarded
+
+/-- the heuristic rebuild of `repair_delaunay_with_flips_advanced`
+(delaunay_triangulation.rs `rebuild_with_heuristic`): every vertex is inserted into a SEPARATE
+candidate object — the insertion failpoints fire without touching this state, modelled
+conservatively as a scope — and the state is replaced by the candidate in one infallible step -/
+def heuristicRebuild : Prog := .scope dtInsertGuarded ;; .mutate 30
+
+/-- `repair_delaunay_with_flips_advanced`: the standard repair, or else the robust repair, or else
+the heuristic rebuild -/
+def repairAdvanced : Prog := .orElse repairGuarded (.orElse repairGuarded heuristicRebuild)
 
 end DM.Txn
